@@ -25,6 +25,7 @@ materializing the defaulted values can make the configuration archive somewhat
 more hermetic.
 """
 
+import dataclasses
 from typing import Any
 
 from fiddle._src import config
@@ -51,9 +52,26 @@ def materialize_defaults(value: Any) -> None:
   """
 
   def traverse(node, state: daglish.State):
-    if isinstance(node, config.Buildable):
-      for arg in node.__signature_info__.parameters.values():
-        if arg.default is not arg.empty and arg.name not in node.__arguments__:
+    # (`TaggedValue`s are skipped: the `tags` parameter of their function is
+    # supplied by `TaggedValueCls.__build__`, not by an argument.)
+    if isinstance(node, config.Buildable) and not isinstance(
+        node, config.TaggedValueCls
+    ):
+      fn_or_cls = config.get_callable(node)
+      parameters = node.__signature_info__.parameters.values()
+      for index, arg in enumerate(parameters):
+        if arg.default is arg.empty:
+          continue
+        if dataclasses.is_dataclass(
+            fn_or_cls
+        ) and config._field_uses_default_factory(fn_or_cls, arg.name):  # pylint: disable=protected-access
+          # The signature default of such a field is a sentinel, not a value.
+          continue
+        if arg.kind == arg.POSITIONAL_ONLY:
+          # Positional-only arguments are addressed (and stored) by index.
+          if index not in node.__arguments__:
+            node[index] = arg.default
+        elif arg.name not in node.__arguments__:
           setattr(node, arg.name, arg.default)
     for _ in state.yield_map_child_values(node, ignore_leaves=True):
       pass  # Run lazy iterator.
